@@ -124,6 +124,68 @@ func (r *recorder) finish(w int) {
 type Pair struct {
 	P latgeo.LPath `json:"p"`
 	Q latgeo.LPath `json:"q"`
+	// Jit 1/2: the operands are built under the sub-grid jitter embeddings (coinciding vertices become distinct points
+	// closer than the 1e-8 snap grid: the tolerance squares of the sweep, which are pooled objects, come into play)
+	Jit int             `json:"jit,omitempty"`
+	F   map[string]bool `json:"f,omitempty"`
+	// FP, FQ: operands given by float coordinates (the near-coincidence family, see nearPairs)
+	FP [][][2]float64 `json:"fp,omitempty"`
+	FQ [][][2]float64 `json:"fq,omitempty"`
+}
+
+func buildF(cs [][][2]float64) *canvas.Path {
+	p := &canvas.Path{}
+	for _, c := range cs {
+		for i, v := range c {
+			if i == 0 {
+				p.MoveTo(v[0], v[1])
+			} else {
+				p.LineTo(v[0], v[1])
+			}
+		}
+		p.Close()
+	}
+	return p
+}
+
+// nearPairs: contours whose extreme vertices lie in neighbouring cells of the 1e-8 snap grid, with a steep edge of one
+// contour passing through the tolerance square of a vertex of another (the pooled tolerance squares of the sweep hold
+// several events and crossing segments): a triangle ending at (dx1, 0) from the left, a box above, and a triangle starting
+// at (dx2, dy2) whose upper edge has slope s. All coordinates are deterministic functions of the index.
+func nearPairs(n int) []Pair {
+	const e = 1e-8
+	var out []Pair
+	for i := 0; i < n; i++ {
+		dx1 := -float64(1+i%5) / 10 * e
+		dx2 := float64(1+(i/5)%4) / 10 * e
+		dy2 := -float64(3+(i/20)%6) / 10 * e
+		slope := []float64{2, 3, 1.5, 4}[i%4]
+		a := [][2]float64{{-1, -1}, {dx1, 0}, {-1, 1}}
+		b := [][2]float64{{-2, 5}, {2, 5}, {2, 6}, {-2, 6}}
+		cc := [][2]float64{{dx2, dy2}, {1 + dx2, -3 + dy2}, {1 + dx2, slope + dy2}}
+		if i%3 == 1 { // mirrored top-bottom
+			for _, c := range [][][2]float64{a, b, cc} {
+				for k := range c {
+					c[k][1] = -c[k][1]
+				}
+			}
+		}
+		out = append(out, Pair{FP: [][][2]float64{a, b}, FQ: [][][2]float64{cc}, Jit: 3})
+	}
+	return out
+}
+
+func (pr Pair) build() (*canvas.Path, *canvas.Path) {
+	if pr.FP != nil {
+		return buildF(pr.FP), buildF(pr.FQ)
+	}
+	switch pr.Jit {
+	case 1:
+		return latgeo.BuildSalt(pr.P, latgeo.Jitter, 1), latgeo.BuildSalt(pr.Q, latgeo.Jitter, 2)
+	case 2:
+		return latgeo.BuildSalt(pr.P, latgeo.Jitter2, 1), latgeo.BuildSalt(pr.Q, latgeo.Jitter2, 2)
+	}
+	return latgeo.Build(pr.P, latgeo.Identity), latgeo.Build(pr.Q, latgeo.Identity)
 }
 
 var opNames = []string{"and", "or", "xor", "not", "div", "settle"}
@@ -134,7 +196,7 @@ func runOp(op string, pr Pair) (res string) {
 			res = "panic:" + latgeo.PanicClass(r)
 		}
 	}()
-	p, q := latgeo.Build(pr.P, latgeo.Identity), latgeo.Build(pr.Q, latgeo.Identity)
+	p, q := pr.build()
 	var out *canvas.Path
 	switch op {
 	case "and":
@@ -196,7 +258,13 @@ type Scenario struct {
 func poisonCheck(s *Scenario, rec *recorder) (ms []core.Mismatch) {
 	// the baseline runs on whatever the pools hold (itself "some preceding history"); Put places the poisoned
 	// objects in the P-local cache, from which the next Get is served first
+	if s.Pair.FP != nil {
+		clearPools() // the near-coincidence family takes its baseline on empty pools (every object fresh from Pool.New)
+	}
 	base := runOpT(s.Op, *s.Pair)
+	if base == "timeout" && s.Pair.Jit != 0 {
+		return nil // non-termination of the operation itself under sub-grid jitter is C01's subject (known finding there)
+	}
 	if base == "timeout" {
 		return []core.Mismatch{{Signature: "stale-pool-object-hangs-operation", Detail: fmt.Sprintf("%s on P=%s Q=%s does not terminate on pools left by preceding (poisoned) calls", s.Op, s.Pair.P.SVG(), s.Pair.Q.SVG())}}
 	}
@@ -417,6 +485,11 @@ func genPairs(c *core.Ctx, seed int64, num int) []Pair {
 	for _, l := range res.Lines {
 		var p Pair
 		if json.Unmarshal(l, &p) == nil && len(p.P) > 0 {
+			p.Jit = 0
+			if !(p.F["pdeg"] || p.F["qdeg"]) {
+				p.Jit = len(out) % 3 // every third pair exact, the others under one of the two jitter embeddings
+			}
+			p.F = nil
 			out = append(out, p)
 		}
 	}
@@ -461,6 +534,7 @@ func (d Driver) Run(c *core.Ctx) error {
 		c.Broken("no pairs generated")
 		return nil
 	}
+	pairs = append(pairs, nearPairs(c.Pick(40, 240))...)
 	rec := newRecorder()
 	canvas.VerifSetPoolHook(rec.hook)
 	clearPools()
